@@ -91,10 +91,17 @@ def layout_helpers(prog):
     """(keyed helper, numpad helper) = the table function's callees (&Layout, &str, X) -> Option<String>."""
     k = layout_table_fn(prog)
     keyed = numpad = None
+    bare = []
     for g in prog.reach([k], foreign_trait_impls=False):
         f = prog.fns[g]
         ins = f.get("inputs") or []
-        if g == k or f.get("kind") == "Closure" or len(ins) != 3 or ins[1] != "&str" or not _entry_value_type(f.get("output") or ""):
+        if g == k or f.get("kind") == "Closure" or len(ins) not in (2, 3) or ins[1] != "&str" or not _entry_value_type(f.get("output") or ""):
+            continue
+        if len(ins) == 2:
+            # a keypad look-up that takes the entry name only: the keypad switch is tested by the table function before it is called
+            # (layout_table reads the gate from the path that reaches the call)
+            if "Layout" in ins[0]:
+                bare.append(g)
             continue
         # the keyed helper takes the table function's own modifier parameter; the keypad helper takes the keypad switch
         # (the bool itself, or a private type made from it)
@@ -102,6 +109,8 @@ def layout_helpers(prog):
             keyed = g
         else:
             numpad = g
+    if numpad is None and len(bare) == 1:
+        numpad = bare[0]
     return keyed, numpad
 
 
@@ -151,6 +160,7 @@ def layout_table(prog):
     except PathLimit as e:
         raise AnchorError("key→layout-entry table: cannot enumerate paths (%s)" % e)
     rows = {}
+    gated_off = set()   # key codes that answer None where the bool parameter is off (a keypad gate written in the table function)
     alts = {}           # key code -> every path's row (a key has several when the arm's arguments depend on another parameter)
     default = None
     universe = set(range(0x10000))
@@ -191,7 +201,28 @@ def layout_table(prog):
                     allv_ = other_allv.get(id(ds_), ())
                     if vals_ == (0,) or (vals_ == "otherwise" and tuple(allv_) == (1,)):
                         v = strip_refs(dd_.a[0])
-        if v is not None and v.k == "call":
+        if v is not None and v.k == "call" and v.a[0] == numpad and numpad is not None and len(v.a[1]) == 2:
+            # the gate written in the table function: this path reaches the keypad look-up only where the bool parameter is on
+            gate_ = None
+            for (ds_, vals_) in other:
+                if ds_.k == "arg" and prog.fns[k]["inputs"][ds_.a[0] - 1] == "bool":
+                    allv_ = other_allv.get(id(ds_), ())
+                    on_ = vals_ == (1,) or (vals_ == "otherwise" and tuple(allv_) == (0,))
+                    gate_ = ds_ if on_ else False
+            row["callee"] = v.a[0]
+            lit = strip_refs(v.a[1][1])
+            row["literal"] = const_val(lit) if is_const(lit, "str") else None
+            row["recv"] = v.a[1][0]
+            row["third"] = gate_ if gate_ not in (None, False) else E("const", ("str", "no gate on the path" if gate_ is None else "reached with the option off"))
+            row["gated_in_table"] = True
+        elif v is not None and v.k == "agg" and str(v.a[0]).endswith("Option::None") and numpad is not None \
+                and len(prog.fns[numpad].get("inputs") or []) == 2 and keys is not None and len(keys) <= 4096 \
+                and any(ds_.k == "arg" and prog.fns[k]["inputs"][ds_.a[0] - 1] == "bool" and
+                        (vals_ == (0,) or (vals_ == "otherwise" and tuple(other_allv.get(id(ds_), ())) == (1,))) for (ds_, vals_) in other):
+            # the same key with the keypad switch off: no value — the other half of the gate, not a row of its own
+            gated_off.update(keys)
+            continue
+        elif v is not None and v.k == "call":
             row["callee"] = v.a[0]
             args = v.a[1]
             if len(args) == 3:
@@ -270,6 +301,7 @@ def layout_table(prog):
             else:
                 rows[kc] = row
     prog._layout_alts = alts
+    prog._layout_gated_off = gated_off
     prog._layout_table = (k, rows, default)
     return prog._layout_table
 
